@@ -336,7 +336,8 @@ class MafHeader(MutableMapping):
         else:
             # ensure that the version is a supported version
             version = self[MafHeader.VersionKey].value
-            if version not in MafHeader.SupportedVersions:
+            # NB: ask the registry now, schemes may have been registered since import
+            if version not in [s.version() for s in all_schemes()]:
                 add_error(
                     MafValidationError(
                         MafValidationErrorType.HEADER_UNSUPPORTED_VERSION,
@@ -367,7 +368,7 @@ class MafHeader(MutableMapping):
             else:
                 # ensure that the annotation spec is a supported annotation spec
                 annotation = self[MafHeader.AnnotationSpecKey].value
-                if annotation not in MafHeader.SupportedAnnotationSpecs:
+                if annotation not in [s.annotation_spec() for s in all_schemes()]:
                     add_error(
                         MafValidationError(
                             MafValidationErrorType.HEADER_UNSUPPORTED_ANNOTATION_SPEC,
